@@ -60,7 +60,16 @@ impl<'a> SendLastStateProcess<'a> {
 
                 if prev_last_state.total_difficulty() < last_state.total_difficulty() {
                     if let Some(prove_state) = peer_state.get_prove_state() {
-                        if prove_state.is_parent_of(&last_state) {
+                        // The child replaces the stored tip without caring about fork: that is
+                        // only right for a child of the stored tip. A tip which was proved
+                        // through another peer is replaced through a proof.
+                        let (stored_total_difficulty, stored_tip_header) =
+                            self.protocol.storage().get_last_state();
+                        let is_stored_tip_kept = last_state.total_difficulty()
+                            <= stored_total_difficulty
+                            || stored_tip_header.calc_header_hash()
+                                == prove_state.get_last_header().header().hash();
+                        if is_stored_tip_kept && prove_state.is_parent_of(&last_state) {
                             trace!("peer {}: new last state could be trusted", self.peer_index);
                             let last_n_blocks = self.protocol.last_n_blocks() as usize;
                             let child_prove_state =
